@@ -94,7 +94,7 @@ structure ScJ where
   steps : List StepJ
   /-- `[i, j]`: run number i and run number j are runs of two nodes that were configured with the same settings and
       functions through different construction styles; node ids apart, their observations must be the same (C19) -/
-  pairs : List (List Nat) := []
+  pairs : Option (List (List Nat)) := none
   deriving FromJson, ToJson
 
 structure RunObsJ where
@@ -427,8 +427,9 @@ def process (sc : ScJ) (obs : ObsJ) : Except String Verdict := do
       vis := r.2.1.visits
     | _, _ => throw "bad step"
   if !implRuns.isEmpty then throw "extra run observations"
-  if !sc.pairs.isEmpty then
-    let judgePairs (runs : Array RunObs) : Bool := sc.pairs.all fun p =>
+  let pairs := sc.pairs.getD []
+  if !pairs.isEmpty then
+    let judgePairs (runs : Array RunObs) : Bool := pairs.all fun p =>
       match p with
       | [i, j] => (match runs[i]?, runs[j]? with | some a, some b => sameUpToNode a b | _, _ => false)
       | _ => false
